@@ -7,6 +7,7 @@ import (
 	"path/filepath"
 
 	"github.com/grafana/cog/internal/ast"
+	"github.com/grafana/cog/internal/ast/compiler"
 )
 
 type KindRegistryInput struct {
@@ -52,10 +53,16 @@ func (input *KindRegistryInput) LoadSchemas(_ context.Context) (ast.Schemas, err
 		cueImports = append(cueImports, fmt.Sprintf("%s:%s", commonPkgPath, "github.com/grafana/grafana/packages/grafana-schema/src/common"))
 	}
 
+	// the kinds are loaded unfiltered: the objects allowed for this input can
+	// refer to objects living in other packages of the registry, which a
+	// filter applied to one package at a time can not follow.
+	unfilteredBase := input.InputBase
+	unfilteredBase.AllowedObjects = nil
+
 	kindLoader := func(loader func(input CueInput) (ast.Schemas, error), entrypoints []string) error {
 		for _, entrypoint := range entrypoints {
 			schemas, err := loader(CueInput{
-				InputBase:  input.InputBase,
+				InputBase:  unfilteredBase,
 				Entrypoint: entrypoint,
 				CueImports: cueImports,
 			})
@@ -83,7 +90,24 @@ func (input *KindRegistryInput) LoadSchemas(_ context.Context) (ast.Schemas, err
 		return nil, err
 	}
 
-	return allSchemas, nil
+	return input.filterSchemas(allSchemas)
+}
+
+// filterSchemas restricts the schemas loaded from the registry to the allowed
+// objects and everything they refer to, across every package of the registry.
+func (input *KindRegistryInput) filterSchemas(schemas ast.Schemas) (ast.Schemas, error) {
+	if len(input.AllowedObjects) == 0 {
+		return schemas, nil
+	}
+
+	filterPass := compiler.FilterSchemas{}
+	for _, schema := range schemas {
+		for _, objectName := range input.AllowedObjects {
+			filterPass.AllowedObjects = append(filterPass.AllowedObjects, compiler.ObjectReference{Package: schema.Package, Object: objectName})
+		}
+	}
+
+	return filterPass.Process(schemas)
 }
 
 func kindRegistryRoot(input *KindRegistryInput) string {
